@@ -15,6 +15,8 @@ class PredRaise(Exception):
 
 def dval(e):
     d = e.data
+    if isinstance(d, str) and d.lstrip("-").isdigit():     # "typed" mode: data travel as text, predicates cast
+        return int(d)
     return d if isinstance(d, int) and not isinstance(d, bool) else -1
 
 
@@ -47,6 +49,9 @@ def ev_eval(p, e, h):
     if t == "tsgap":
         last = h.last()
         return last is not None and e.timestamp - last.timestamp <= p[1]
+    if t == "tsfirst":
+        first = h.first()
+        return first is not None and e.timestamp - first.timestamp >= p[1]
     if t == "cof":
         return kind_of(e) == 1 and e.phenomenon_name == phname(p[1]) and e.pattern_name == patname(p[2])
     if t == "raiseon":
@@ -66,8 +71,21 @@ def ev_eval(p, e, h):
     raise ValueError(p)
 
 
-def to_callable(p):
-    return lambda e, h: ev_eval(p, e, h)
+EXC = dict(TypeError=TypeError, ValueError=ValueError, KeyError=KeyError, ZeroDivisionError=ZeroDivisionError,
+           AttributeError=AttributeError, RuntimeError=RuntimeError, StopIteration=StopIteration)
+
+
+def to_callable(p, exc=None):
+    """exc: name of the built-in exception a scripted raise throws (None: PredRaise)"""
+    if exc is None:
+        return lambda e, h: ev_eval(p, e, h)
+
+    def f(e, h):
+        try:
+            return ev_eval(p, e, h)
+        except PredRaise:
+            raise EXC[exc]("scripted")
+    return f
 
 
 def to_coq(p):
@@ -88,6 +106,8 @@ def to_coq(p):
         return "(PLastDataPlus %s %s)" % (zz(p[1]), zz(p[2]))
     if t == "tsgap":
         return "(PTsGapLe %s)" % zz(p[1])
+    if t == "tsfirst":
+        return "(PTsSinceFirstGe %s)" % zz(p[1])
     if t == "cof":
         return "(PComplexOf %s %s)" % (zz(p[1]), zz(p[2]))
     if t == "raiseon":
@@ -153,22 +173,32 @@ def note_coq(n):
 
 
 # ---- real objects ----
-def make_pattern(p):
+def make_pattern(p, mode=None):
+    """mode = None | dict(typed=bool, exc=name): typed wraps every predicate in BoboPredicateCallType(int, cast=True)
+    (events then carry their data as text, see make_event); exc is what a scripted raise throws"""
     from bobocep.cep.phenom.pattern.pattern import BoboPattern, BoboPatternBlock
-    from bobocep.cep.phenom.pattern.predicate import BoboPredicateCall
-    blocks = [BoboPatternBlock(predicates=[BoboPredicateCall(to_callable(x)) for x in b["preds"]],
+    from bobocep.cep.phenom.pattern.predicate import BoboPredicateCall, BoboPredicateCallType
+    mode = mode or {}
+    exc = mode.get("exc")
+    if mode.get("typed"):
+        def mk(x):
+            return BoboPredicateCallType(to_callable(x, exc), dtype=int, subtype=bool(mode.get("subtype", True)), cast=True)
+    else:
+        def mk(x):
+            return BoboPredicateCall(to_callable(x, exc))
+    blocks = [BoboPatternBlock(predicates=[mk(x) for x in b["preds"]],
                                group=gname(b["group"]), strict=b["strict"], loop=b["loop"],
                                negated=b["neg"], optional=b["opt"]) for b in p["blocks"]]
     return BoboPattern(name=patname(p["name"]), blocks=blocks,
-                       preconditions=[BoboPredicateCall(to_callable(x)) for x in p["pre"]],
-                       haltconditions=[BoboPredicateCall(to_callable(x)) for x in p["halt"]],
+                       preconditions=[mk(x) for x in p["pre"]],
+                       haltconditions=[mk(x) for x in p["halt"]],
                        singleton=p["single"])
 
 
-def make_event(e):
+def make_event(e, textdata=False):
     from bobocep.cep.event import BoboEventSimple, BoboEventComplex, BoboEventAction, BoboHistory
     i, ts, kind, data, ph, pat = e
-    d = None if data == -1 else data
+    d = None if data == -1 else (str(data) if textdata else data)
     if kind == 0:
         return BoboEventSimple(event_id="e%d" % i, timestamp=ts, data=d)
     if kind == 1:
